@@ -453,6 +453,10 @@ class Parser:
 
         if ttype == "semicolon":
             self.__cstate = None
+            curarg = self.__curcommand.curarg
+            if curarg is not None and "extra_arg" in curarg:
+                # the last tag is still waiting for its parameter
+                return False
             if not self.__check_command_completion(testsemicolon=False):
                 return False
             condition = (
